@@ -156,18 +156,32 @@ fn oracle_dictionary(reference: &BTreeMap<String, usize>, max_size: Option<usize
 /// save followed by load reproduces the dictionary
 fn oracle_round_trip(d: &Dictionary, path: &std::path::Path) -> Vec<Finding> {
     let items = items_of(d);
-    match catch(|| d.save(path).and_then(|_| Dictionary::load(path))) {
-        Err(p) => vec![("no-panic".into(), "".into(), format!("save/load panicked: {p}; dictionary {items:?}"))],
-        Ok(Err(e)) => vec![("save-load-round-trip".into(), "".into(), format!("save/load failed: {e}; dictionary {items:?}"))],
-        Ok(Ok(l)) => {
-            let li = items_of(&l);
-            if li != items || l.freq_sum != d.freq_sum || l.len() != d.len() {
-                vec![("save-load-round-trip".into(), "".into(), format!("saved {items:?} (freq_sum {}), loaded {li:?} (freq_sum {})", d.freq_sum, l.freq_sum))]
-            } else {
-                vec![]
+    // the state of the target path is part of the case (set before every save, so that nothing
+    // depends on what an earlier case left there): no file, an empty file, a longer dictionary file
+    // and a longer file that is no dictionary
+    let longer_dict: String = (0..items.len() + 8).map(|i| format!("old{i}\t{}\n", 1000 - i)).collect();
+    let longer_junk = "x".repeat(longer_dict.len() + 64);
+    let mut out = vec![];
+    for (what, before) in [("no file at the path", None), ("an empty file at the path", Some(String::new())), ("a longer dictionary file at the path", Some(longer_dict)), ("a longer file that is no dictionary at the path", Some(longer_junk))] {
+        let _ = std::fs::remove_file(path);
+        if let Some(b) = &before {
+            std::fs::write(path, b).expect("cannot write the scratch file");
+        }
+        match catch(|| d.save(path).and_then(|_| Dictionary::load(path))) {
+            Err(p) => out.push(("no-panic".into(), "".into(), format!("save/load panicked ({what}): {p}; dictionary {items:?}"))),
+            Ok(Err(e)) => out.push(("save-load-round-trip".into(), "".into(), format!("save/load failed ({what}): {e}; dictionary {items:?}"))),
+            Ok(Ok(l)) => {
+                let li = items_of(&l);
+                if li != items || l.freq_sum != d.freq_sum || l.len() != d.len() {
+                    out.push(("save-load-round-trip".into(), "".into(), format!("{what}: saved {items:?} (freq_sum {}), loaded {li:?} (freq_sum {})", d.freq_sum, l.freq_sum)));
+                }
             }
         }
+        if !out.is_empty() {
+            break;
+        }
     }
+    out
 }
 
 /// get_closest returns an entry at minimal (normalised) edit distance, the most frequent among the
